@@ -191,9 +191,28 @@ pub fn run_c13(ctx: &Ctx, index: u64, cov: &mut Cov) -> Option<Violation> {
         }
         // (b) clone
         if step == fork_at {
-            let c = a.arena.clone();
+            let c = if rng.chance(1, 2) {
+                a.arena.clone()
+            } else {
+                // clone_from into an arena with a history (slots, pending free list) of its own
+                let mut d: Arena<Plain> = Arena::new();
+                let k = rng.range(1, 30);
+                let mut ids = Vec::new();
+                for i in 0..k {
+                    ids.push(d.new_node(Plain { tid: 900_000, val: i as u64 }));
+                }
+                let mut nrem = rng.below(k + 1);
+                while nrem > 0 && !ids.is_empty() {
+                    let i = rng.below(ids.len());
+                    ids.swap_remove(i).remove(&mut d);
+                    nrem -= 1;
+                }
+                d.clone_from(&a.arena);
+                cov.bump("clones_taken_with_clone_from_into_used_arena");
+                d
+            };
             if c != a.arena {
-                return v(ctx, "clone-not-equal", "a clone does not compare equal to its original".into(), &workload, step, &ops);
+                return v(ctx, "clone-not-equal", "a clone (clone / clone_from) does not compare equal to its original".into(), &workload, step, &ops);
             }
             let keep = c.clone();
             fork = Some((
